@@ -238,6 +238,19 @@ def R3():   # a ref-map left by an earlier run survived a run that renamed nothi
         shutil.rmtree(root, ignore_errors=True)
 
 
+def R4():   # the importer stops reading at once but exits 0: the run reported success and deleted the old tag name
+    root, repo = new_repo()
+    try:
+        e2e.git(repo, 'fast-import', '--quiet', input=e2e.sized_stream(400, 600, 1, 1))      # ~300 KB of stream: more than a pipe buffer
+        sh(repo, 'git symbolic-ref HEAD refs/heads/b0; git reset -q --hard; git tag v1')
+        env = e2e.perturbed_env(root, 0, 'cutimport'); env['FRRS_SHIM_CUT'] = '0'
+        before = e2e.refs(repo)
+        p = subprocess.run([e2e.FR, '--force', '--tag-rename', 'v:rel-'], cwd=repo, stdout=subprocess.PIPE, stderr=subprocess.PIPE, env=env, timeout=120)
+        return p.returncode == 0 or e2e.refs(repo) != before
+    finally:
+        shutil.rmtree(root, ignore_errors=True)
+
+
 def F12():  # file replaced by a directory of the same name in one commit: the directory's files are lost
     root, repo = new_repo()
     try:
